@@ -26,6 +26,7 @@ import Props.C18
 import Proofs.SplitSuccess
 import Proofs.JoinSuccess
 import Proofs.LiftSuccess
+import Proofs.LiftSplit
 namespace PM.C12
 open PM
 
@@ -921,6 +922,71 @@ example : liftTsSchema.apply (.replaceAround 2 5 3 4 ⟨[], 0, 0⟩ 0 true) lift
   · have hv : liftTsSchema.validContent 1 [.text [97, 98, 99] []] = false := by decide
     simp [Schema.fromReplace, Schema.replace, liftTsDoc, replaceKids, hv,
       inRange, depthAt, Slice.wf, spineL, spineR, outer, atLevel, fcut, fcutLoop, fappend, addNode, Except.map]
+
+/-! ### an approved lift applies — in general, given that the pieces the split leaves behind are valid
+
+    `liftGuard` (PM/StructEdit.lean) recomputes, level by level, the node the split leaves before the range (the
+    children before it plus the copy left one level deeper) and the one it leaves after it, asks that each is valid
+    content for its type — failure (a) above — and that `node(target)` accepts its new child list *with the two
+    copies in place* — failure (b).  When nothing is split it is the approval itself
+    (`liftTarget_lift_applies_flat`).  The tie evaluates it at every approved lift: it held exactly where the real
+    `lift` succeeded (in `TextStable` schemas). -/
+
+/-- **`lift_target` approves ∧ `liftGuard` ∧ `TextStable` ⇒ `lift` succeeds** with a schema-valid document that
+    keeps the text and leaf nodes — whether or not ancestors of the range have to be split. -/
+theorem liftTarget_lift_applies (S : Schema) (hts : C01.TextStable S) (doc : Node)
+    (a b depth target : Nat) (f t : RPos) (st : Step)
+    (hv : C01.Valid S doc) (hn : fnorm doc.kids = true)
+    (hf : doc.resolve a = some f) (ht : doc.resolve b = some t)
+    (hab : a ≤ b) (hend : b ≤ f.end_ depth)
+    (hfb : depth < f.depth ∨ f.textOffset = 0) (htb : depth < t.depth ∨ t.textOffset = 0)
+    (hg : liftGuard S doc a b depth target = true)
+    (hc : liftTarget S doc a b depth = some (some target))
+    (hb : liftStep doc a b depth target = .ok st) :
+    ∃ doc', S.apply st doc = .ok doc' ∧ C01.Valid S doc' ∧
+      (ftoks doc'.kids).filter Tok.isContent = (ftoks doc.kids).filter Tok.isContent := by
+  obtain ⟨htd, hdf, _⟩ := liftTarget_in_range S doc a b depth target f t hf ht hc
+  have hg' : liftGuardR S f t depth target = true := by simpa [liftGuard, hf, ht] using hg
+  have hc' : liftTargetR S f t depth = some (some target) := by simpa [liftTarget, hf, ht] using hc
+  have hb' : liftStepR f t depth target = .ok st := by simpa [liftStep, hf, ht] using hb
+  have R := resolve_resolved hf
+  cases doc with
+  | text s m => have := R.depth_eq; simp [Node.kids, depthAt] at this; omega
+  | leaf ty at_ m => have := R.depth_eq; simp [Node.kids, depthAt] at this; omega
+  | elem ty0 a0 m0 K =>
+    obtain ⟨⟨doc', hap⟩, f', t', gs, ge, sl, i, rfl, hpay⟩ :=
+      lift_applies S hts ty0 a0 m0 K a b depth target f t st hf ht hv hn hab hend hfb htb hg' hc' hb'
+    exact ⟨doc', hap, C01.apply_valid S (.replaceAround f' t' gs ge sl i true) _ doc' hv hpay hap,
+      lift_keeps_content S _ doc' a b depth target _ hab hb hap⟩
+
+/-- a non-trivial instance: lifting the second paragraph of `exDoc = doc(blockquote(p("a"), p("b")))` to the top
+    splits the blockquote in front of it -/
+example : liftFlatGuard exDoc 5 6 1 0 = false ∧ liftGuard exSchema exDoc 5 6 1 0 = true := ⟨rfl, rfl⟩
+example : ∃ doc', exSchema.apply (.replaceAround 4 8 4 7 ⟨[.elem 1 [] [] []], 1, 0⟩ 1 true) exDoc = .ok doc' ∧
+    C01.Valid exSchema doc' ∧
+    (ftoks doc'.kids).filter Tok.isContent = (ftoks exDoc.kids).filter Tok.isContent :=
+  liftTarget_lift_applies exSchema ex_stable exDoc 5 6 1 0 _ _ _ rfl rfl rfl rfl (by decide) (by decide)
+    (.inl (by decide)) (.inl (by decide)) rfl rfl rfl
+/-- … the first one: split behind it -/
+example : ∃ doc', exSchema.apply (.replaceAround 0 4 1 4 ⟨[.elem 1 [] [] []], 0, 1⟩ 0 true) exDoc = .ok doc' ∧
+    C01.Valid exSchema doc' ∧
+    (ftoks doc'.kids).filter Tok.isContent = (ftoks exDoc.kids).filter Tok.isContent :=
+  liftTarget_lift_applies exSchema ex_stable exDoc 2 3 1 0 _ _ _ rfl rfl rfl rfl (by decide) (by decide)
+    (.inl (by decide)) (.inl (by decide)) rfl rfl rfl
+/-- … and the middle one of three: split on both sides -/
+private def exDoc3 : Node :=
+  .elem 0 [] [] [.elem 1 [] [] [.elem 2 [] [] [.text [97] []], .elem 2 [] [] [.text [98] []],
+    .elem 2 [] [] [.text [99] []]]]
+example : ∃ doc', exSchema.apply (.replaceAround 4 7 4 7 ⟨[.elem 1 [] [] [], .elem 1 [] [] []], 1, 1⟩ 1 true) exDoc3
+      = .ok doc' ∧ C01.Valid exSchema doc' ∧
+    (ftoks doc'.kids).filter Tok.isContent = (ftoks exDoc3.kids).filter Tok.isContent :=
+  liftTarget_lift_applies exSchema ex_stable exDoc3 5 6 1 0 _ _ _ rfl rfl rfl rfl (by decide) (by decide)
+    (.inl (by decide)) (.inl (by decide)) rfl rfl rfl
+/-- in the two counterexamples above the guard does not hold -/
+example : liftGuard liftCopySchema exDoc 5 6 1 0 = false := by rfl
+example : liftGuard liftNestSchema liftNestDoc 5 9 3 1 = false := by rfl
+/-- … and where nothing is split it does -/
+example : liftGuard exSchema liftDoc 2 3 1 0 = true ∧ liftGuard lift2Schema lift2Doc 3 4 2 0 = true := ⟨rfl, rfl⟩
 
 /-! ### LIFT-END -/
 
